@@ -58,6 +58,9 @@ def behaviour_to_schedule(beh):
                 s["path"] = ["h", "1"]
             elif e0["cls"] == "resp":
                 s["tok"] = e0["tok"]
+            elif label.startswith("AckSep"):
+                # the peer acknowledges the separate response it was just sent, whatever ID the endpoint gave it
+                s["mid"] = {"last_tx": {"ty": "CON", "cls": "resp"}, "else": BASE + e0["mid"]}
             steps.append(s)
         elif e0["k"] == "release":
             steps.append({"at": t, "do": "release", "inv": e0["inv"], "outcome": "ok"})
